@@ -35,7 +35,7 @@
 //	merge <epoch> id=<newSid> <mem|file> in=<sid>{drops}/… tab=<n,n,x>/… new=[docs]  ## <physical root>
 //	snap <epoch> <creator> newid=<sid|0>                                         ## <physical snapshot written>
 //	read e=<epoch> k=<K> [held]                                                  ## n=<Count> all=<id.body,…> look=<id>=<body;…>,…
-//	pastroot <epoch>                                                             ## <physical root of that epoch, as it looks NOW> (at `reread`)
+//	pastroot <epoch>                                                             ## <physical root of a held reader, as it looks NOW> (at `reread`)
 //
 // physical root = e<epoch> then per segment <sid><m|p>[<id>.<body>,…]{<deleted doc numbers>}.
 package main
@@ -81,7 +81,8 @@ func (h) Rule() string {
 		"loaded/introduced/snapwritten), a file merge (fm:planned/written/loaded/introstart/introduced) or a direct persist " +
 		"(ps:write/segwritten/loaded/swapped/snapwritten) at each of which 1–2 batches land that delete/update documents of exactly " +
 		"the segments under merge/persist (one doc, one doc of a segment that already carries deletions, all docs of one segment, " +
-		"all docs of all segments, a doc of a staying segment), reader views at every phase and at quiescence; configurations " +
+		"all docs of all segments, a doc of a staying segment), reader views at every phase and at quiescence, readers held open at " +
+		"the gates and before the release and read again at the end together with the physical root they hold; configurations " +
 		"cycle through {mem,fs}x{ice v1,v2}x{safe,unsafe}x MinSegmentsForInMemoryMerge {1,2,3,100} x merge-plan floor {1,4,100} x " +
 		"segments per merge task {2,3} (tier 2; floor 100 merges whenever two persisted segments exist); thorough enumerates every " +
 		"(gate, batch kind) and every ordered pair of gates of one scenario, quick takes a seeded sample; an evaluation is one " +
@@ -253,7 +254,6 @@ type event struct {
 	creator string
 	segs    []segRec
 	grab    uint64 // root events: epoch of the last snapshot the persister grabbed
-	snap    *index.Snapshot
 }
 
 type world struct {
@@ -270,7 +270,6 @@ type world struct {
 	gateCount map[string]int
 
 	events     []*event
-	roots      []*event // every root installed in this case (re-read by `reread`: a published root never changes)
 	lastEpoch  uint64
 	lastRoot   *event
 	lastGrab   uint64
@@ -381,9 +380,7 @@ func trace(iw *index.Writer, kind string, snap *index.Snapshot, x uint64) {
 	}
 	ev := snapEvent(w, "root", snap)
 	ev.grab = w.lastGrab
-	ev.snap = snap
 	w.events = append(w.events, ev)
-	w.roots = append(w.roots, ev)
 	w.lastEpoch = ev.epoch
 	w.lastRoot = ev
 	if ev.creator == "introduceSegment" {
@@ -651,6 +648,7 @@ type pendingBatch struct {
 type heldReader struct {
 	r     *bluge.Reader
 	epoch uint64
+	snap  *index.Snapshot // the same root at index level (a reference is held), for `pastroot`
 }
 
 type caseState struct {
@@ -762,6 +760,9 @@ func closeCase(out func(string, string), st sink) {
 	emitEvents(out)
 	for _, hr := range cur.held {
 		_ = hr.r.Close()
+		if hr.snap != nil {
+			_ = hr.snap.Close()
+		}
 	}
 	mu.Lock()
 	W.recording = false
@@ -1599,7 +1600,20 @@ func execReal(line string, out func(string, string), st sink, work string) {
 		safePoint(st)
 		emitEvents(out)
 		if r, e, ok := openReader(); ok {
-			cur.held = append(cur.held, heldReader{r, e})
+			hr := heldReader{r: r, epoch: e}
+			mu.Lock()
+			idx := W.idx
+			mu.Unlock()
+			if idx != nil {
+				if is, err := idx.Reader(); err == nil && is != nil {
+					if is.VerifEpoch() == e {
+						hr.snap = is
+					} else {
+						_ = is.Close()
+					}
+				}
+			}
+			cur.held = append(cur.held, hr)
 			st.Count("op:hold")
 		}
 	case "reread":
@@ -1610,17 +1624,17 @@ func execReal(line string, out func(string, string), st sink, work string) {
 			out(fmt.Sprintf("read e=%d k=%d held cfg=%s", hr.epoch, cur.k, cur.cfg), res)
 			st.Count("op:reread")
 		}
-		// every root ever installed in this case, looked at again NOW: its segments and deleted bitmaps are
-		// published, immutable data (the bitmaps are plain memory: no reference on the snapshot is needed)
+		// the roots held open, looked at again NOW: their segments and deleted bitmaps are published, immutable data.
+		// (Only roots on which a reference is held: a deleted bitmap may alias the mapped file of its segment.)
 		mu.Lock()
 		w := W
 		var lines [][2]string
-		for _, ev := range w.roots {
-			if ev.snap == nil {
+		for _, hr := range cur.held {
+			if hr.snap == nil {
 				continue
 			}
-			again := snapEvent(w, "past", ev.snap)
-			lines = append(lines, [2]string{fmt.Sprintf("pastroot %d cfg=%s", ev.epoch, cur.cfg), again.phys(w)})
+			again := snapEvent(w, "past", hr.snap)
+			lines = append(lines, [2]string{fmt.Sprintf("pastroot %d cfg=%s", again.epoch, cur.cfg), again.phys(w)})
 		}
 		mu.Unlock()
 		for _, l := range lines {
@@ -1875,6 +1889,9 @@ func (h) Gen(r *hlib.Rand, tier string, scale int, emit func(string)) {
 			emit(symBatch(kinds[r.Intn(len(kinds))]))
 		}
 		emit("read")
+		if r.Chance(60) {
+			emit("hold") // the root the merge / persist will be introduced into: it shares its bitmaps with the next root
+		}
 		if g2 != "" {
 			emit("arm " + g2)
 			emit("release")
@@ -1885,6 +1902,9 @@ func (h) Gen(r *hlib.Rand, tier string, scale int, emit func(string)) {
 			}
 			emit(symBatch(k2))
 			emit("read")
+			if r.Chance(40) {
+				emit("hold")
+			}
 		}
 		emit("release")
 		emit("quiesce")
